@@ -573,6 +573,10 @@ def gen_compressed(rng):
         o = {"compress": 1}
     elif r < 0.45:
         o = {"group": False}
+    if rng.random() < 0.3:
+        o["coordinates"] = True      # dimension coordinates of compressed axes are named in `coordinates' too
+    if rng.random() < 0.2:
+        o["string"] = False
     return cs, o
 
 
